@@ -553,6 +553,55 @@ pub fn run(prop: &str, tier: &str, seed: u64) -> Report {
     }
     total.merge(rr);
     total.merge(rr2);
+    // ONE key object (per role) kept for a whole series of seals and opens, the way applications keep their keys: every
+    // token of the series must open to its own message (a key object that accumulates state - a cached derivation, a
+    // remembered salt or nonce - goes wrong from its second use on)
+    {
+        let mut rk = Report::new();
+        let mut rng = Rng::new(seed, "c01-key-object", 0);
+        for &p in protos {
+            let nsess = match (p, tier == "thorough") {
+                (P::V1P, false) => 3,
+                (P::V3P, false) => 6,
+                (_, false) => 40,
+                (P::V1P | P::V3P, true) => 40,
+                (_, true) => 800,
+            };
+            for k in 0..nsess {
+                let key = pools.key(p, k % pools.count(p));
+                let n = 2 + rng.below(if matches!(p, P::V1P | P::V3P) { 3 } else { 9 });
+                let mut steps = Vec::new();
+                let mut msgs = Vec::new();
+                for j in 0..n {
+                    let msg = rng.utf8_upto(if (k + j) % 7 == 0 { 3000 } else { 120 });
+                    let footer = [None, Some("ftr".to_string()), Some(String::new()), Some(rng.utf8_upto(40))][rng.below(4)].clone();
+                    let ia = if p.has_assertion() { [None, Some("ia".to_string()), Some(rng.utf8_upto(40))][rng.below(3)].clone() } else { None };
+                    let nonce = if p == P::V2L && rng.chance(1, 2) { rng.bytes(24) } else { rng.bytes(32) };
+                    steps.push(KStep::Seal { nonce, msg: msg.clone(), footer: footer.clone(), ia: ia.clone() });
+                    steps.push(KStep::Open { token: None, footer, ia });
+                    msgs.push(msg);
+                }
+                let outs = core_key_session(p, &key, &steps);
+                for j in 0..n {
+                    rk.evaluations += 1;
+                    let (sealed, opened) = (outs.get(2 * j), outs.get(2 * j + 1));
+                    let good = matches!(sealed, Some(Out::Ok(_))) && matches!(opened, Some(Out::Ok(m)) if *m == msgs[j]);
+                    if good {
+                        rk.count(&format!("{} one key object: token #{} opens to its message", p.name(), (j + 1).min(3)));
+                        rk.distinct(format!("{}|key-object|{}", p.name(), j.min(8)));
+                    } else {
+                        rk.violation(
+                            format!("{} key-object-reuse {} use={}", prop, p.name(), if j == 0 { "first" } else { "later" }),
+                            format!("{}: ONE key object used for {} seal/open rounds: round #{} (message of {} bytes): seal {} / open {}", p.name(), n, j + 1, msgs[j].len(), sealed.map(|o| o.brief()).unwrap_or_default(), opened.map(|o| if matches!(o, Out::Ok(_)) { "Ok(another message)".to_string() } else { o.brief() }).unwrap_or_default()),
+                            json!({"cmd": prop, "note": "key-object session: re-run the check", "p": p.name(), "round": j + 1}),
+                        );
+                    }
+                }
+            }
+            rk.require(&format!("{} one key object: token #2 opens to its message", p.name()), 3);
+        }
+        total.merge(rk);
+    }
     // ONE GenericBuilder, several builds, claims set / removed / extended and footer / assertion changed in between: every
     // token must come back as exactly the claims in force at its build (the histories of C14, here as round trips)
     total.merge(crate::c14::multi_round_trips(prop, protos, if tier == "thorough" { 3000 } else { 240 }, seed, &pools));
@@ -576,4 +625,4 @@ pub fn replay(prop: &str, case: &Value) -> Report {
     r
 }
 
-pub const RULE_C01: &str = "cases = boundary-length x {ascii,multi-byte} x footer{none,empty,text} x assertion{none,empty,text} on every key of the catalogue, content-class x footer/assertion catalogue, 64 KiB (thorough: 1 MiB) messages, seeded random (key, nonce, message, footer, assertion), plus generic and batteries-included builder->parser round trips over random claim sets, plus ONE core builder object sealed from 2-4 times (every token must open to the message); each case seals with the real library and opens the result with the same key/footer/assertion; oracle = identity. distinct_nontrivial counts distinct (protocol, layer, message-length class, content class, footer class, assertion class) tuples (upper layers: protocol, layer, #claims, footer class, assertion class, parser kind) that produced a token AND opened to exactly the input; plus ONE core builder whose payload/footer/assertion change between seals (to other values, to empty and back), and ONE GenericBuilder with claims set/removed/extended and footer/assertion changed between several builds (each token must parse to exactly the claims in force at its build)";
+pub const RULE_C01: &str = "cases = boundary-length x {ascii,multi-byte} x footer{none,empty,text} x assertion{none,empty,text} on every key of the catalogue, content-class x footer/assertion catalogue, 64 KiB (thorough: 1 MiB) messages, seeded random (key, nonce, message, footer, assertion), plus generic and batteries-included builder->parser round trips over random claim sets, plus ONE core builder object sealed from 2-4 times (every token must open to the message); each case seals with the real library and opens the result with the same key/footer/assertion; oracle = identity. distinct_nontrivial counts distinct (protocol, layer, message-length class, content class, footer class, assertion class) tuples (upper layers: protocol, layer, #claims, footer class, assertion class, parser kind) that produced a token AND opened to exactly the input; plus ONE key object (per role) kept for 2-10 alternating seals and opens at the core layer (every token opens to its own message); plus ONE core builder whose payload/footer/assertion change between seals (to other values, to empty and back), and ONE GenericBuilder with claims set/removed/extended and footer/assertion changed between several builds (each token must parse to exactly the claims in force at its build)";
